@@ -20,8 +20,8 @@ Proof. exact pretty_fixed_no_panic. Qed.
 Print Assumptions C11_no_panic.
 
 (* the remaining shape of both functions is the one the model mirrors *)
-Theorem C11_shape : Extracted.pretty_iter_shape = true /\ Extracted.pretty_output_shape = true.
-Proof. split; reflexivity. Qed.
+Theorem C11_shape : Extracted.file_runtime_src_error_rs = true.
+Proof. reflexivity. Qed.
 Print Assumptions C11_shape.
 
 (* The configuration of the pinned source before the `fix:` commit violated
